@@ -135,13 +135,9 @@ func runC10(c *Ctx) {
 		okInv := false
 		for _, r := range returnsOf(readFrom) {
 			for _, f := range w.factsAt(r) {
-				if f.Op == "true" && f.Truth {
-					if ic, _ := callOf(f.X); ic != nil && ic.Call.StaticCallee() != nil && ic.Call.StaticCallee().String() == "errors.Is" {
-						if g := globalLoad(ic.Call.Args[1]); g != nil && strings.Contains(g.Name(), "Invalid") {
-							if !isNilConst(w.resolveLoad(r.Results[2])) {
-								okInv = true
-							}
-						}
+				if _, g, ok := sentinelFact(w, f); ok && strings.Contains(g.Name(), "Invalid") {
+					if !isNilConst(w.resolveLoad(r.Results[2])) {
+						okInv = true
 					}
 				}
 			}
@@ -353,4 +349,25 @@ func constIntOrNil(v ssa.Value) (int64, bool) {
 		return -1, true
 	}
 	return constInt(v)
+}
+
+// sentinelFact recognises a must-fact "x is the sentinel error G": errors.Is(x, G) is true, or
+// x == G.
+func sentinelFact(w *World, f Fact) (ssa.Value, *ssa.Global, bool) {
+	if f.Op == "true" && f.Truth {
+		if ic, _ := callOf(f.X); ic != nil && ic.Call.StaticCallee() != nil && ic.Call.StaticCallee().String() == "errors.Is" {
+			if g := globalLoad(w.resolveLoad(ic.Call.Args[1])); g != nil {
+				return ic.Call.Args[0], g, true
+			}
+		}
+	}
+	if f.Op == "==" && f.Truth {
+		if g := globalLoad(w.resolveLoad(f.Y)); g != nil {
+			return f.X, g, true
+		}
+		if g := globalLoad(w.resolveLoad(f.X)); g != nil {
+			return f.Y, g, true
+		}
+	}
+	return nil, nil, false
 }
